@@ -39,13 +39,18 @@ Alpha == << [s |-> "P",   t |-> "li t0, 1"],
             [s |-> "JT1", t |-> "jal t0, K1"],        \* a jump that links into a register other than ra
             [s |-> "JT2", t |-> "jal t1, K2"],
             [s |-> "A",   t |-> "la t1, D1"],
-            [s |-> "CD",  t |-> "call D1"] >>
+            [s |-> "CD",  t |-> "call D1"],
+            [s |-> "CC",  t |-> "call DC"] >>
 NA == Len(Alpha)
 Sym(s) == CHOOSE a \in 1..NA : Alpha[a].s = s /\ \A b \in 1..(a - 1) : Alpha[b].s # s
 Terminators == {Sym("R"), Sym("X"), Sym("JK1"), Sym("JL1"), Sym("U")}
 \* shape weights (simulation picks successors uniformly)
-Shapes == <<"forced", "forced", "forced", "forced", "forced", "free", "free", "dup", "data">>
-Allowed(sh) == IF sh \in {"data", "free"} THEN 1..NA ELSE (1..NA) \ {Sym("A"), Sym("CD")}
+\* "datadup": L1 is first defined as a data label (only directives behind it up to .text) and then again in the code;
+\* "datacode": instructions inside .data behind the label DC, which the code may call
+Shapes == <<"forced", "forced", "forced", "forced", "forced", "free", "free", "dup", "data", "datadup", "datacode">>
+Allowed(sh) == IF sh \in {"data", "free", "datadup"} THEN (1..NA) \ {Sym("CC")}
+               ELSE IF sh = "datacode" THEN 1..NA
+               ELSE (1..NA) \ {Sym("A"), Sym("CD"), Sym("CC")}
 
 Lab(q, i, name) == IF q = i THEN name \o ":\n" ELSE ""
 RECURSIVE Render(_, _, _)
@@ -55,7 +60,10 @@ Render(is, i, p) ==
   \o (IF i > Len(is) THEN "" ELSE "    " \o Alpha[is[i]].t \o "\n" \o Render(is, i + 1, p))
 
 Text(is, p, sh) ==
-  (IF sh = "data" THEN ".data\nD1: .word 1\n.text\n" ELSE "") \o "main:\n" \o Render(is, 1, p)
+  (CASE sh = "data" -> ".data\nD1: .word 1\n.text\n"
+     [] sh = "datadup" -> ".data\nD1: .word 1\nL1: .space 4\n.text\n"
+     [] sh = "datacode" -> ".data\nD1: .word 1\nDC:\n    addi a0, a0, 1\n    ret\n.text\n"
+     [] OTHER -> "") \o "main:\n" \o Render(is, 1, p)
 
 \* apply the forced terminators
 Forced(is, p, tm) ==
